@@ -136,6 +136,32 @@ def do_job(root, row, new_cs, old_cs, tier):
                               {'kind': 'failing-input', 'suite': 'spec-c11',
                                'input': {'row': list(row), 'new': new_cs, 'old': old_cs}, 'expected': want_s,
                                'observed': got_s}))
+    # ... and for an override in the policy file itself: the file is emptied (every spelling of "no rules") or deleted
+    if where == 'main' and renamed and old_ovr != 'absent':
+        how = (len(new_cs) + len(old_cs) + len(old_ovr) + int(enforce_new) + shared) % 4
+        if how == 3:
+            fs.delete_main()
+        else:
+            fs.write_main({}, 'yaml' if how == 0 else 'json')       # yaml: zero bytes; json: "{}"
+        fs.sync()
+        if how == 2:
+            with open(os.path.join(root, 'policy.yaml'), 'w') as f:
+                f.write('# nothing but a comment\n')
+            os.utime(os.path.join(root, 'policy.yaml'), (fs.main[0] / 4.0, fs.main[0] / 4.0))
+        e.load_rules()
+        obs3 = observe(e)
+        spec3 = run_batch([[11, [enforce_new, enc_defaults(defaults), 1], fs.wire(), [S(n) for n in names]]])[0]
+        for n, sp in zip(names, spec3):
+            want_s = unS(sp[0]) if sp else None
+            got_s = dict(obs3['rules']).get(n)
+            if want_s != got_s:
+                viols.append(('table-spec:after-emptying', 'row %r strings %r, after the policy file was %s: %s is %r, '
+                              'extracted spec says %r' % (row, (new_cs, old_cs), ['emptied', 'reduced to {}',
+                                                                                  'reduced to a comment', 'deleted'][how],
+                                                          n, got_s, want_s),
+                              {'kind': 'failing-input', 'suite': 'spec-c11',
+                               'input': {'row': list(row), 'new': new_cs, 'old': old_cs, 'emptied': how},
+                               'expected': want_s, 'observed': got_s}))
     return viols, corr, key
 
 
